@@ -968,6 +968,13 @@ func (be *c20Backend) BlockchainInfo(_ context.Context, lo, hi int64) (*ctypes.R
 	return res, nil
 }
 
+// TxSearch is a pass-through in light/rpc (no verification); the backend answers with the real
+// rpc/core handler, the honest full node whose served proofs the statement's last sentence is about
+func (be *c20Backend) TxSearch(_ context.Context, query string, prove bool, page, perPage *int, orderBy string) (*ctypes.ResultTxSearch, error) {
+	be.calls++
+	return core.TxSearch(c20RCtx, query, prove, page, perPage, orderBy)
+}
+
 // ---------------------------------------------------------------- projections of responses
 
 func (ch *c20Chain) absBlock(r *ctypes.ResultBlock) interface{} {
